@@ -57,5 +57,12 @@ func genRegress() []caseSpec {
 			})
 		}
 	}
+	p2pkNot := cat(pushBytes(keys[1].comp), []byte{0xac, 0x91})
+	for _, v := range []int{3, 4} {
+		v := v
+		add("F-C06-d:not", wP2SH, txscript.ScriptBip16, p2pkNot, func(b *builtSpend) [][]byte {
+			return [][]byte{b.ecdsaSig(sigPlan{key: keys[1], ht: 1, variant: v}, p2pkNot, keys)}
+		})
+	}
 	return out
 }
